@@ -130,11 +130,23 @@ pub struct TapState {
     /// The stage(s) producing this boundary, each with the tap on its limit stream (C13: after every
     /// emitted batch the view is the stage's view of its input for the limits it has pulled).
     pub group: Vec<(StageSpec, Option<Rc<RefCell<LimTapState>>>)>,
+    /// Limit taps of the stage(s) reading from this boundary.
+    pub consumer_lims: Vec<Rc<RefCell<LimTapState>>>,
+    /// Batched taps: the replica after every item (index 0 = initial values).
+    pub hist: Vec<Vec<V>>,
+    /// C13: the minimal index tuples (input state, pulled limit of each stage of the group) whose
+    /// view equalled the replica after the previous batch; the next batch must match a tuple that
+    /// is componentwise not before one of them.
+    pub frontier: Vec<Vec<usize>>,
 }
 
 impl TapState {
     pub fn new(index: usize, batched: bool, replica: Vector<Elem>) -> Self {
+        let hist = if batched { vec![vs(&replica)] } else { Vec::new() };
         TapState {
+            hist,
+            consumer_lims: Vec::new(),
+            frontier: Vec::new(),
             index,
             batched,
             replica,
@@ -177,6 +189,9 @@ impl TapState {
         }
         if self.raw.is_some() {
             self.on_raw_item(diffs, env, cs);
+            if self.batched {
+                self.hist.push(vs(&self.replica));
+            }
         } else {
             self.on_stage_item(diffs, env, cs);
         }
@@ -321,17 +336,60 @@ impl TapState {
         }
     }
 
-    /// C13: a batch has just been applied to this boundary of a batched consumer.
-    fn check_batch_view(&self, env: &Env, cs: &ConsumerShared) {
+    /// C13: a batch has just been applied to this boundary of a batched consumer. The rebuilt view
+    /// must be the group's view of a state its input had at a batch boundary, for limits it has
+    /// pulled — not necessarily the latest ones: an implementation may read ahead of what it has
+    /// emitted. Candidates are all (input state, pulled limit per stage) index tuples that are
+    /// componentwise not before a tuple that matched the previous batch; at quiescent points the
+    /// view is compared with the latest input anyway (`check_views`).
+    fn check_batch_view(&mut self, env: &Env, cs: &ConsumerShared) {
         let Some(prev) = &self.prev else { return };
         if !self.batched || self.group.is_empty() || cs.retire.get().is_some() {
             return;
         }
-        let input = vs(&prev.borrow().replica);
-        let stages: Vec<(StageSpec, Option<usize>)> = self.group.iter().map(|(s, lt)| (*s, lt.as_ref().and_then(|l| l.borrow().pulled))).collect();
-        let want = super::view::group_view(&stages, &input);
+        let prev = prev.borrow();
         let got = vs(&self.replica);
-        if let Err(e) = super::view::matches(&want, &got) {
+        let lim_hists: Vec<Vec<Option<usize>>> = self.group.iter().map(|(_, lt)| lt.as_ref().map_or_else(|| vec![None], |l| l.borrow().pulled_hist.clone())).collect();
+        let dims: Vec<usize> = std::iter::once(prev.hist.len()).chain(lim_hists.iter().map(|h| h.len())).collect();
+        let nd = dims.len();
+        if self.frontier.is_empty() {
+            self.frontier = vec![vec![0; nd]];
+        }
+        let lo: Vec<usize> = (0..nd).map(|d| self.frontier.iter().map(|f| f[d]).min().unwrap()).collect();
+        let total: usize = (0..nd).map(|d| dims[d] - lo[d]).product();
+        if total > 4096 {
+            env.borrow_mut().counters.inc("probe.batch_view_check_skipped");
+            return;
+        }
+        let mut matching: Vec<Vec<usize>> = Vec::new();
+        let mut t = lo.clone();
+        'outer: loop {
+            if self.frontier.iter().any(|f| (0..nd).all(|d| t[d] >= f[d])) {
+                let stages: Vec<(StageSpec, Option<usize>)> = self.group.iter().enumerate().map(|(i, (s, _))| (*s, lim_hists[i][t[i + 1]])).collect();
+                let want = super::view::group_view(&stages, &prev.hist[t[0]]);
+                if super::view::matches(&want, &got).is_ok() {
+                    matching.push(t.clone());
+                }
+            }
+            // next tuple (last dimension fastest)
+            let mut d = nd;
+            loop {
+                if d == 0 {
+                    break 'outer;
+                }
+                d -= 1;
+                t[d] += 1;
+                if t[d] < dims[d] {
+                    break;
+                }
+                t[d] = lo[d];
+            }
+        }
+        if matching.is_empty() {
+            let input = prev.hist.last().unwrap().clone();
+            let stages: Vec<(StageSpec, Option<usize>)> = self.group.iter().map(|(s, lt)| (*s, lt.as_ref().and_then(|l| l.borrow().pulled))).collect();
+            let want = super::view::group_view(&stages, &input);
+            let e = super::view::matches(&want, &got).err().unwrap_or_default();
             let mut ps = self.sp();
             ps.push("C13");
             cs.violate(
@@ -339,9 +397,16 @@ impl TapState {
                 &ps,
                 "batch_leaves_inconsistent_view",
                 self.index as i32,
-                format!("after an emitted batch, stage {:?} over input {:?} with pulled limits {:?}: {}", self.group.iter().map(|(s, _)| *s).collect::<Vec<_>>(), input, stages.iter().map(|(_, l)| *l).collect::<Vec<_>>(), e),
+                format!("after an emitted batch, stage {:?} over input {:?} with pulled limits {:?}: {} (and no match among the {} candidate input states / pulled limits since the previous batch either)", self.group.iter().map(|(s, _)| *s).collect::<Vec<_>>(), input, stages.iter().map(|(_, l)| *l).collect::<Vec<_>>(), e, total),
             );
+            return;
         }
+        if matching.len() > 1 || matching[0] != dims.iter().map(|d| d - 1).collect::<Vec<_>>() {
+            env.borrow_mut().counters.inc("probe.batch_view_matched_earlier_or_ambiguous");
+        }
+        // keep the minimal elements
+        let minimal: Vec<Vec<usize>> = matching.iter().filter(|m| !matching.iter().any(|o| o != *m && (0..nd).all(|d| o[d] <= m[d]))).cloned().collect();
+        self.frontier = minimal;
     }
 
     fn on_stage_item(&mut self, diffs: &[VectorDiff<Elem>], env: &Env, cs: &ConsumerShared) {
@@ -383,6 +448,9 @@ impl TapState {
                 }
             }
         }
+        if self.batched {
+            self.hist.push(vs(&self.replica));
+        }
         self.check_batch_view(env, cs);
     }
 
@@ -392,10 +460,8 @@ impl TapState {
             return;
         }
         self.ended = true;
-        for (_, lt) in &self.group {
-            if let Some(lt) = lt {
-                lt.borrow_mut().stage_ended = true;
-            }
+        for lt in &self.consumer_lims {
+            lt.borrow_mut().input_ended = true;
         }
         if let Some(raw) = &self.raw {
             let w = env.borrow();
@@ -528,8 +594,17 @@ pub struct LimTapState {
     pub last: PollRes,
     pub epoch: u64,
     pub is_tail: bool,
-    /// the stage's own output stream has ended: limits announced from now on cannot reach its view
-    pub stage_ended: bool,
+    /// the stream the stage reads from has ended: whether a limit announced from now on still
+    /// reaches the stage's view is the implementation's business (this library polls the limit
+    /// first and then discovers the end; a stage that reads ahead has ended polls earlier)
+    pub input_ended: bool,
+    /// limits the stage may still have in effect: the one in effect when the current poll of the
+    /// consumer began plus every value pulled since (an adapter may fold several ready values
+    /// into one update, skipping the intermediate ones)
+    pub in_effect: Vec<usize>,
+    pub in_effect_epoch: u64,
+    /// every value of `pulled` so far (index 0 = nothing pulled yet)
+    pub pulled_hist: Vec<Option<usize>>,
 }
 
 pub struct LimitTap {
@@ -550,6 +625,11 @@ impl Stream for LimitTap {
         let r = this.inner.as_mut().poll_next(cx);
         let mut st = this.st.borrow_mut();
         st.epoch = this.env.borrow().epoch;
+        if st.in_effect_epoch != st.epoch {
+            st.in_effect_epoch = st.epoch;
+            let cur = st.pulled.unwrap_or(st.base);
+            st.in_effect = vec![cur];
+        }
         match &r {
             Poll::Pending => st.last = PollRes::Pending,
             Poll::Ready(None) => st.last = PollRes::End,
@@ -569,11 +649,14 @@ impl Stream for LimitTap {
                             }
                         }
                     };
-                    if old > len && len > *new && *new > 0 {
+                    let _ = old;
+                    if len > *new && *new > 0 && st.in_effect.iter().any(|&o| o > len) {
                         this.cs.retire.set(Some("KF-D5"));
                     }
                 }
+                st.in_effect.push(*new);
                 st.pulled = Some(*new);
+                st.pulled_hist.push(Some(*new));
                 let mut w = this.env.borrow_mut();
                 w.counters.inc("probe.limit_pulled");
                 if *new > this.input.borrow().replica.len() {
